@@ -17,6 +17,9 @@ enum Stmt {
     CallDrop(u32, Vec<(String, u64)>, usize),
     /// g := g + c for a mutable i32 global
     Bump(u32, i32),
+    /// scratch local number k (allocated by the caller before the edit, as an extension has to: the
+    /// builder closure has no access to the module's locals) := const; read back and dropped
+    Scratch(usize, String, u64),
 }
 #[derive(Clone, Debug)]
 enum Res {
@@ -89,6 +92,15 @@ fn gen_body(rng: &mut Rng, a: &AMod, target: u32, forward_ok: bool) -> Option<Bo
             }
         }
     }
+    let mut nscratch = 0;
+    for _ in 0..rng.below(3) {
+        if rng.chance(1, 2) {
+            let t = *rng.pick(&["i32", "i64", "f64"]);
+            let c = const_of(rng, t);
+            stmts.push(Stmt::Scratch(nscratch, c.0, c.1));
+            nscratch += 1;
+        }
+    }
     let res = results
         .iter()
         .map(|t| {
@@ -144,6 +156,12 @@ fn body_text(b: &Body, nparams: usize) -> String {
                         o.push("I32Add".into());
                         o.push(format!("GlobalSet/g:{}", g));
                     }
+                    Stmt::Scratch(k, t, v) => {
+                        o.push(const_text(t, *v));
+                        o.push(format!("LocalSet/x:{}", nparams + k));
+                        o.push(format!("LocalGet/x:{}", nparams + k));
+                        o.push("Drop".into());
+                    }
                 }
             }
             for r in res {
@@ -155,10 +173,21 @@ fn body_text(b: &Body, nparams: usize) -> String {
         }
     }
     o.push("End".into());
+    let tys = scratch_types(b);
+    if !tys.is_empty() {
+        o.insert(0, format!("locals:{}", tys.join(",")));
+    }
     o.join(" ")
 }
 
-fn build(b: &Body, body: &mut walrus::InstrSeqBuilder, args: &[LocalId], fids: &[FunctionId], gids: &[GlobalId]) {
+fn scratch_types(b: &Body) -> Vec<String> {
+    match b {
+        Body::Plain(stmts, _) => stmts.iter().filter_map(|s| if let Stmt::Scratch(_, t, _) = s { Some(t.clone()) } else { None }).collect(),
+        _ => vec![],
+    }
+}
+
+fn build(b: &Body, body: &mut walrus::InstrSeqBuilder, args: &[LocalId], fids: &[FunctionId], gids: &[GlobalId], scratch: &[LocalId]) {
     let konst = |body: &mut walrus::InstrSeqBuilder, t: &str, v: u64| match t {
         "i32" => {
             body.i32_const(v as u32 as i32);
@@ -206,6 +235,12 @@ fn build(b: &Body, body: &mut walrus::InstrSeqBuilder, args: &[LocalId], fids: &
                         body.i32_const(*c);
                         body.binop(BinaryOp::I32Add);
                         body.global_set(gids[*g as usize]);
+                    }
+                    Stmt::Scratch(k, t, v) => {
+                        konst(body, t, *v);
+                        body.local_set(scratch[*k]);
+                        body.local_get(scratch[*k]);
+                        body.drop();
                     }
                 }
             }
@@ -263,11 +298,21 @@ fn run_case(case: &str, wasm: &[u8], kind_imp: bool, pick: u64, seed: u64, stats
     let gids: Vec<GlobalId> = m.globals.iter().map(|g| g.id()).collect();
     let mut fails: Vec<(String, String)> = vec![];
     let fid = fids[target as usize];
+    let scratch: Vec<LocalId> = scratch_types(&body)
+        .iter()
+        .map(|t| {
+            m.locals.add(match t.as_str() {
+                "i32" => walrus::ValType::I32,
+                "i64" => walrus::ValType::I64,
+                _ => walrus::ValType::F64,
+            })
+        })
+        .collect();
     let edited = out::catch(|| {
         if kind_imp {
-            m.replace_imported_func(fid, |(b, args)| build(&body, b, args, &fids, &gids)).map(|id| id == fid)
+            m.replace_imported_func(fid, |(b, args)| build(&body, b, args, &fids, &gids, &scratch)).map(|id| id == fid)
         } else {
-            m.replace_exported_func(fid, |(b, args)| build(&body, b, args, &fids, &gids)).map(|id| id != fid)
+            m.replace_exported_func(fid, |(b, args)| build(&body, b, args, &fids, &gids, &scratch)).map(|id| id != fid)
         }
     });
     match edited {
